@@ -46,6 +46,8 @@ type EWCase struct {
 	// returns that tensor.
 	Pre string `json:"pre,omitempty"`
 	Tol      float64 `json:"-"`
+	scTensor *tensor.Dense
+	scVal    interface{}
 }
 
 func (c *EWCase) NTKey() string {
@@ -396,6 +398,13 @@ func (c *EWCase) Run() string {
 	var res tensor.Tensor
 	var lerr error
 	pan := try(func() { res, lerr = c.call(A.b.T, B, sc, d, opts) })
+	if c.scTensor != nil && (c.Mode == "safe" || c.Mode == "reuse" || c.Mode == "incr") && pan == "" {
+		// the scalar-shaped tensor operand is an operand like any other: it still holds its value
+		var now interface{}
+		if p := try(func() { now = c.scTensor.ScalarValue() }); p != "" || !bitEqVal(now, c.scVal) {
+			return fmt.Sprintf("%s.%s(%s %s, mode %s): the scalar-shaped tensor operand held %s before the call and holds %s afterwards %s", c.Fam, c.Op, c.DT, c.Form, c.Mode, fmtVal(c.scVal), fmtVal(now), p)
+		}
+	}
 	if preR != nil {
 		if r, ok := res.(*tensor.Dense); ok && r == preR {
 			return fmt.Sprintf("%s.%s(%s, mode %s) returned the tensor that an earlier, refused call was offered as its %s destination", c.Fam, c.Op, c.DT, c.Mode, c.Pre)
@@ -601,7 +610,9 @@ func (c *EWCase) call(a *tensor.Dense, B *opndB, sc interface{}, d DT, opts []te
 	if c.Via == "pkg" {
 		f := pkgBinary[c.Op]
 		if c.ScT && c.Form != "TT" {
-			sc = tensor.New(tensor.FromScalar(sc)) // scalar-shaped tensors are dispatched as scalars
+			c.scVal = sc
+			c.scTensor = tensor.New(tensor.FromScalar(sc)) // scalar-shaped tensors are dispatched as scalars
+			sc = c.scTensor
 		}
 		switch c.Form {
 		case "TT":
